@@ -12,7 +12,7 @@
 (*   harness/float_driver.cpp replays through the implementation.                                               *)
 EXTENDS FloatOps, TLC, Json, FiniteSets
 
-CONSTANT Mode
+CONSTANTS Mode, Tier      \* Mode: "toy1" | "toy2" | "f32";  Tier: "quick" | "thorough"
 
 VARIABLES k, x, y
 vars == <<k, x, y>>
@@ -30,12 +30,25 @@ Dom32 == {V(s, e, 0, m) : s \in {0, 1}, e \in 0..255, m \in Mants32}
 Small32 == {V(s, e, 0, m) : s \in {0, 1}, e \in {0, 1, 2, 104, 126, 127, 128, 149, 150, 151, 253, 254, 255},
                              m \in {0, 1, Pow2(22), Pow2(23) - 1}}
 
-Init ==
-    IF Mode = "f32"
-    THEN \/ k = "u" /\ x \in Dom32 /\ y = x
-         \/ k = "b" /\ x \in Small32 /\ y \in Small32
-    ELSE k = "b" /\ x \in ToyValues /\ y \in ToyValues
-Next == UNCHANGED vars
+\* Three levels so that the work is done by TLC's worker threads (initial states are evaluated by one thread only):
+\*   "i" one seed per (sign, exponent)  ->  "u" every value of the domain (unary laws, export)
+\*   ->  "b" every pair over the pair domain (binary laws)
+Seeds == {V(s, e, 0, 0) : s \in {0, 1}, e \in 0..F.emax}
+Mants == IF Mode = "f32" THEN {[h |-> 0, l |-> m] : m \in Mants32}
+         ELSE {[h |-> h, l |-> l] : h \in 0..(Pow2(HW(F)) - 1), l \in 0..(Pow2(F.W) - 1)}
+\* pair domain: first operand / second operand (quick tier: the second operand of the toy formats is thinned out)
+XDom == IF Mode = "f32" THEN Small32 ELSE ToyValues
+YDom == IF Mode = "f32" THEN Small32
+        ELSE IF Tier = "quick" THEN {v \in ToyValues : (v.h * Pow2(F.W) + v.l) \in {0, 1, 2, 5, 8, 11, 15}}
+        ELSE ToyValues
+
+Init == k = "i" /\ x \in Seeds /\ y = x
+Next ==
+    \/ /\ k = "i" /\ k' = "u"
+       /\ \E m \in Mants : x' = V(x.s, x.e, m.h, m.l)
+       /\ y' = x'
+    \/ /\ k = "u" /\ x \in XDom /\ k' = "b"
+       /\ x' = x /\ y' \in YDom
 Spec == Init /\ [][Next]_vars
 
 (* ------------------------------------ exact values in the toy formats ------------------------------------ *)
@@ -122,8 +135,8 @@ ToyMinMaxOK ==
         /\ \A r \in {x, y} : (FMaxOK(F, x, y, r) => Le(x, r) /\ Le(y, r)) /\ (FMinOK(F, x, y, r) => Le(r, x) /\ Le(r, y))
 
 ToyLaws == Mode # "f32" =>
-    /\ (x = y => ToyRoundOK /\ ToyNeighbourOK)
-    /\ ToyFModOK /\ ToyRemainderOK /\ ToyNextAfterOK /\ ToyFDimOK /\ ToyOrderOK /\ ToyMinMaxOK
+    /\ (k = "u" => ToyRoundOK /\ ToyNeighbourOK)
+    /\ k = "b" => ToyFModOK /\ ToyRemainderOK /\ ToyNextAfterOK /\ ToyFDimOK /\ ToyOrderOK /\ ToyMinMaxOK
 
 (* ----------------------------------------- laws on binary32 ----------------------------------------- *)
 Neg(v) == [v EXCEPT !.s = 1 - v.s]
@@ -174,7 +187,7 @@ BinaryLaws32 ==
     /\ FMaxOK(F, x, y, IF Lt(x, y) THEN y ELSE x) /\ FMinOK(F, x, y, IF Lt(y, x) THEN y ELSE x)
     /\ Same(F, FDim(F, x, x), Zero(0))
 
-Laws32 == Mode = "f32" => IF k = "u" THEN UnaryLaws32 ELSE BinaryLaws32
+Laws32 == Mode = "f32" => CASE k = "u" -> UnaryLaws32 [] k = "b" -> BinaryLaws32 [] OTHER -> TRUE
 
 EmitInv == (Mode = "f32" /\ k = "u") => PrintT(<<"GEN", ToJson([s |-> x.s, e |-> x.e, m |-> x.l])>>)
 ==============================================================================
